@@ -6,6 +6,7 @@ import (
 	"fmt"
 	"sort"
 	"strconv"
+	"strings"
 
 	at "github.com/DanielSvub/anytype"
 
@@ -79,7 +80,7 @@ func Protect(f func()) (panicked bool, msg string) {
 }
 
 // WalkValue observes a value returned by Get (scalar or container) claimed to be of type t.
-func walkValue(v any, t at.Type, depth int, where string) (*Node, error) {
+func walkValue(v any, t at.Type, depth int, where *pathStack) (*Node, error) {
 	k, ok := KindOfType(t)
 	if !ok {
 		return nil, fmt.Errorf("%s: TypeOf reports %d (undefined) for an existing slot", where, t)
@@ -132,7 +133,19 @@ func walkValue(v any, t at.Type, depth int, where string) (*Node, error) {
 
 const maxWalkDepth = 2000000
 
-func walkList(l at.List, depth int, where string) (*Node, error) {
+// pathStack renders the position inside the walked tree only when an error message needs it.
+type pathStack struct{ segs []string }
+
+func (p *pathStack) push(s string) { p.segs = append(p.segs, s) }
+func (p *pathStack) pop()          { p.segs = p.segs[:len(p.segs)-1] }
+func (p *pathStack) String() string {
+	if len(p.segs) > 40 {
+		return strings.Join(p.segs[:20], "") + "…" + strings.Join(p.segs[len(p.segs)-20:], "")
+	}
+	return strings.Join(p.segs, "")
+}
+
+func walkList(l at.List, depth int, where *pathStack) (*Node, error) {
 	if depth > maxWalkDepth {
 		return nil, fmt.Errorf("%s: nesting deeper than %d (cycle?)", where, maxWalkDepth)
 	}
@@ -145,16 +158,18 @@ func walkList(l at.List, depth int, where string) (*Node, error) {
 	for i := 0; i < cnt; i++ {
 		t := l.TypeOf(i)
 		v := l.Get(i)
-		c, err := walkValue(v, t, depth+1, where+"#"+strconv.Itoa(i))
+		where.push("#" + strconv.Itoa(i))
+		c, err := walkValue(v, t, depth+1, where)
 		if err != nil {
 			return nil, err
 		}
+		where.pop()
 		n.L[i] = c
 	}
 	return n, nil
 }
 
-func walkObject(o at.Object, depth int, where string) (*Node, error) {
+func walkObject(o at.Object, depth int, where *pathStack) (*Node, error) {
 	if depth > maxWalkDepth {
 		return nil, fmt.Errorf("%s: nesting deeper than %d (cycle?)", where, maxWalkDepth)
 	}
@@ -177,10 +192,12 @@ func walkObject(o at.Object, depth int, where string) (*Node, error) {
 		}
 		t := o.TypeOf(k)
 		v := o.Get(k)
-		c, err := walkValue(v, t, depth+1, where+"."+strconv.Quote(k))
+		where.push("." + strconv.Quote(k))
+		c, err := walkValue(v, t, depth+1, where)
 		if err != nil {
 			return nil, err
 		}
+		where.pop()
 		n.M[k] = c
 		n.Keys = append(n.Keys, k)
 	}
@@ -200,12 +217,12 @@ func Walk(v any) (n *Node, err error) {
 		if c == nil {
 			return nil, fmt.Errorf("nil List")
 		}
-		return walkList(c, 0, "")
+		return walkList(c, 0, &pathStack{})
 	case at.Object:
 		if c == nil {
 			return nil, fmt.Errorf("nil Object")
 		}
-		return walkObject(c, 0, "")
+		return walkObject(c, 0, &pathStack{})
 	}
 	return nil, fmt.Errorf("not a container: %T", v)
 }
@@ -226,56 +243,73 @@ func (n *Node) ToSpec() *spec.Spec {
 func (n *Node) Canon() string { return n.ToSpec().Canon() }
 
 // Diff compares an observation with a spec; "" means equal (kinds exact, floats by ==, strings bytewise).
-func Diff(n *Node, s *spec.Spec) string { return diff(n, s, "") }
-
-func diff(n *Node, s *spec.Spec, path string) string {
+// The position of the first difference is assembled while unwinding, so equal trees cost no string building.
+func Diff(n *Node, s *spec.Spec) string {
+	path, msg := diff(n, s)
+	if msg == "" {
+		return ""
+	}
 	if path == "" {
 		path = "<root>"
 	}
+	if len(path) > 300 {
+		path = path[:150] + "…" + path[len(path)-150:]
+	}
+	return "at " + path + ": " + msg
+}
+
+func diff(n *Node, s *spec.Spec) (path string, msg string) {
 	if n.K != s.K {
-		return fmt.Sprintf("at %s: kind %s, expected %s (%s)", path, n.K, s.K, s.Short())
+		return "", fmt.Sprintf("kind %s, expected %s (%s)", n.K, s.K, s.Short())
 	}
 	switch n.K {
 	case spec.Bool:
 		if n.B != s.B {
-			return fmt.Sprintf("at %s: bool %v, expected %v", path, n.B, s.B)
+			return "", fmt.Sprintf("bool %v, expected %v", n.B, s.B)
 		}
 	case spec.Int:
 		if n.I != s.I {
-			return fmt.Sprintf("at %s: int %d, expected %d", path, n.I, s.I)
+			return "", fmt.Sprintf("int %d, expected %d", n.I, s.I)
 		}
 	case spec.Float:
 		if n.F != s.F {
-			return fmt.Sprintf("at %s: float %v, expected %v", path, strconv.FormatFloat(n.F, 'g', -1, 64), strconv.FormatFloat(s.F, 'g', -1, 64))
+			return "", fmt.Sprintf("float %v, expected %v", strconv.FormatFloat(n.F, 'g', -1, 64), strconv.FormatFloat(s.F, 'g', -1, 64))
 		}
 	case spec.Str:
 		if n.S != s.S {
-			return fmt.Sprintf("at %s: string %q, expected %q", path, spec.Trunc(n.S, 120), spec.Trunc(s.S, 120))
+			return "", fmt.Sprintf("string %q, expected %q", spec.Trunc(n.S, 120), spec.Trunc(s.S, 120))
 		}
 	case spec.List:
 		if len(n.L) != len(s.L) {
-			return fmt.Sprintf("at %s: list length %d, expected %d", path, len(n.L), len(s.L))
+			return "", fmt.Sprintf("list length %d, expected %d", len(n.L), len(s.L))
 		}
 		for i := range n.L {
-			if d := diff(n.L[i], s.L[i], path+"#"+strconv.Itoa(i)); d != "" {
-				return d
+			if p, d := diff(n.L[i], s.L[i]); d != "" {
+				return "#" + strconv.Itoa(i) + p, d
 			}
 		}
 	case spec.Obj:
 		if len(n.Keys) != len(s.Keys) {
-			return fmt.Sprintf("at %s: object has %d keys %q, expected %d keys %q", path, len(n.Keys), n.Keys, len(s.Keys), s.Keys)
+			return "", fmt.Sprintf("object has %d keys %q, expected %d keys %q", len(n.Keys), truncKeys(n.Keys), len(s.Keys), truncKeys(s.Keys))
 		}
 		for i, k := range s.Keys {
 			c, ok := n.M[k]
 			if !ok {
-				return fmt.Sprintf("at %s: key %q missing (have %q)", path, k, n.Keys)
+				return "", fmt.Sprintf("key %q missing (have %q)", k, truncKeys(n.Keys))
 			}
-			if d := diff(c, s.Vals[i], path+"."+strconv.Quote(k)); d != "" {
-				return d
+			if p, d := diff(c, s.Vals[i]); d != "" {
+				return "." + strconv.Quote(k) + p, d
 			}
 		}
 	}
-	return ""
+	return "", ""
+}
+
+func truncKeys(k []string) []string {
+	if len(k) > 12 {
+		return append(append([]string{}, k[:12]...), "…")
+	}
+	return k
 }
 
 // SameShape compares two observations including container identities at every depth.
@@ -400,6 +434,9 @@ func Build(r *rng.R, s *spec.Spec) any {
 	route := 0
 	if r != nil {
 		route = r.Intn(6)
+		if r.Chance(1, 5) {
+			route = 6 + r.Intn(6) // the container is the result of a deriving operation
+		}
 	}
 	switch s.K {
 	case spec.List:
@@ -408,6 +445,21 @@ func Build(r *rng.R, s *spec.Spec) any {
 			vals[i] = value(r, e)
 		}
 		switch route {
+		case 6: // Concat of two halves
+			k := r.Intn(len(vals) + 1)
+			return at.NewList(vals[:k]...).Concat(at.NewList(vals[k:]...))
+		case 7: // empty (or scalar-only) receiver concatenated with the content
+			return at.NewList().Concat(at.NewList(vals...))
+		case 8:
+			l := at.NewList("pre")
+			l.Add(vals...)
+			return l.SubList(1, 0)
+		case 9:
+			return at.NewList(vals...).Map(func(i int, v any) any { return v })
+		case 10:
+			return at.NewList(vals...).Filter(func(any) bool { return true })
+		case 11:
+			return at.NewList(vals...).Clone()
 		case 1:
 			l := at.NewList()
 			for _, v := range vals {
@@ -443,6 +495,46 @@ func Build(r *rng.R, s *spec.Spec) any {
 		return at.NewList(vals...)
 	case spec.Obj:
 		switch route {
+		case 6, 7: // Merge result (receiver part is cloned, argument part is stored as given)
+			k := 0
+			if len(s.Keys) > 0 {
+				k = r.Intn(len(s.Keys) + 1)
+			}
+			a, b := at.NewObject(), at.NewObject()
+			for i, key := range s.Keys {
+				if i < k {
+					a.Set(key, value(r, s.Vals[i]))
+				} else {
+					b.Set(key, value(r, s.Vals[i]))
+				}
+			}
+			if route == 7 {
+				a.Set("shadowed-by-argument", 1)
+				b.Set("shadowed-by-argument", 2)
+				return a.Merge(b).Unset("shadowed-by-argument")
+			}
+			return a.Merge(b)
+		case 8, 9: // Pluck of a larger object
+			o := at.NewObject("dropped-by-pluck", 1)
+			for i, key := range s.Keys {
+				o.Set(key, value(r, s.Vals[i]))
+			}
+			if o.Count() == len(s.Keys) { // a tree key collides with the extra one: keep it simple
+				return o
+			}
+			return o.Pluck(s.Keys...)
+		case 10:
+			o := at.NewObject()
+			for i, key := range s.Keys {
+				o.Set(key, value(r, s.Vals[i]))
+			}
+			return o.Map(func(k string, v any) any { return v })
+		case 11:
+			o := at.NewObject()
+			for i, key := range s.Keys {
+				o.Set(key, value(r, s.Vals[i]))
+			}
+			return o.Clone()
 		case 1, 3:
 			o := at.NewObject()
 			for i, k := range s.Keys {
